@@ -1,0 +1,68 @@
+//! Verification hooks (only compiled with the cargo feature `verif`).
+//!
+//! The passes report what they just did as one JSON object per event: to a sink that a
+//! test harness installs for the current thread (`start` / `take`), or, when no sink is
+//! installed, appended to the file named in the environment variable AVRA_VERIF_TRACE
+//! (so that the project's own tests can be traced as well).  Without either, nothing
+//! happens.  Events are written after the state change they describe.
+
+use std::cell::RefCell;
+use std::io::Write;
+
+thread_local! {
+    static SINK: RefCell<Option<Vec<String>>> = RefCell::new(None);
+}
+
+/// Installs an empty sink for the current thread.
+pub fn start() {
+    SINK.with(|s| *s.borrow_mut() = Some(vec![]));
+}
+
+/// Removes the sink of the current thread and returns what it collected.
+pub fn take() -> Vec<String> {
+    SINK.with(|s| s.borrow_mut().take()).unwrap_or_default()
+}
+
+/// Records one event (a JSON object without the surrounding braces).
+pub fn emit(fields: String) {
+    let line = format!("{{{}}}", fields);
+    let kept = SINK.with(|s| {
+        if let Some(v) = s.borrow_mut().as_mut() {
+            v.push(line.clone());
+            true
+        } else {
+            false
+        }
+    });
+    if !kept {
+        if let Ok(path) = std::env::var("AVRA_VERIF_TRACE") {
+            if let Ok(mut f) = std::fs::OpenOptions::new()
+                .create(true)
+                .append(true)
+                .open(path)
+            {
+                let _ = writeln!(f, "{}", line);
+            }
+        }
+    }
+}
+
+/// Lower-case hexadecimal digits of a byte string.
+pub fn hex(bytes: &[u8]) -> String {
+    bytes.iter().map(|b| format!("{:02x}", b)).collect()
+}
+
+/// A string as a JSON string literal.
+pub fn quote(s: &str) -> String {
+    let mut out = String::from("\"");
+    for c in s.chars() {
+        match c {
+            '"' => out.push_str("\\\""),
+            '\\' => out.push_str("\\\\"),
+            c if (c as u32) < 0x20 => out.push_str(&format!("\\u{:04x}", c as u32)),
+            c => out.push(c),
+        }
+    }
+    out.push('"');
+    out
+}
